@@ -133,7 +133,11 @@ pub fn collect(w: &mut World, scn: &Scenario, prop: &str, t0: u64) -> RunResult 
     let probes = probes_map(w);
     let class = class_of(&scn.ops, &faults, &probes);
     let violations: Vec<ViolationRec> = w.violations.iter().filter(|v| v.props.iter().any(|p| p == prop)).map(ViolationRec::from).collect();
-    let nontrivial = w.probes.acked_mutations > 0 && w.probes.compares_after_reopen > 0;
+    let mut nontrivial = w.probes.acked_mutations > 0 && w.probes.compares_after_reopen > 0;
+    if prop == "C17" {
+        let attempts: u64 = ["second_open_refused", "second_doctor_refused", "flock_probes"].iter().map(|k| probes.get(*k).copied().unwrap_or(0)).sum();
+        nontrivial = nontrivial && (attempts > 0 || !violations.is_empty());
+    }
     let mut states: Vec<String> = w.snaps.iter().map(|m| m.digest()).collect();
     states.sort();
     states.dedup();
